@@ -94,6 +94,11 @@ def run_case(case, rec, cid):
             gc = p.get_calendar_date()
             # the civil day as the formatting layer sees it (whatever representation p is held in)
             sf = [int(p.strftime("%Y"))] + [int(x) for x in p.strftime("%m %d %j").split()] if 0 <= gc[0] <= 9999 and 0 <= p.year <= 9999 else []
+            gw_ = p.get_week_date()
+            if sf and 0 <= gw_[0] <= 9999:      # the week view through a reduced (year-week) dump format
+                from metomi.isodatetime.dumpers import TimePointDumper
+                s_ = TimePointDumper().dump(p, "CCYYWww")
+                sf = sf + [int(s_[:4]), int(s_[5:7])]
             return dict(p=proj_tp(p), tc=proj_tp(p.to_calendar_date()), to=proj_tp(p.to_ordinal_date()),
                         tw=proj_tp(p.to_week_date()), gc=[I(v) for v in gc],
                         go=[I(v) for v in p.get_ordinal_date()], gw=[I(v) for v in p.get_week_date()], sf=sf)
